@@ -24,7 +24,40 @@ import build as B
 import oracle as O
 from bounded_twins import focus_pool, ENVS
 
+def parameters_of(e, seen=None, out=None):
+    """Parameter objects reachable from the tree (by attribute walk; vectors / matrices of numbers are skipped)."""
+    from optyx.core.parameters import Parameter
+    from optyx.core.expressions import Expression
+    seen = set() if seen is None else seen
+    out = [] if out is None else out
+    if id(e) in seen:
+        return out
+    seen.add(id(e))
+    if isinstance(e, Parameter):
+        out.append(e)
+        return out
+    d = getattr(e, "__dict__", None)
+    if d is None and hasattr(e, "__slots__"):
+        d = {k: getattr(e, k, None) for k in e.__slots__}
+    for v in (d or {}).values():
+        if isinstance(v, (list, tuple)):
+            for x in v:
+                if isinstance(x, Expression) or hasattr(x, "_variables") or hasattr(x, "_expressions"):
+                    parameters_of(x, seen, out)
+        elif isinstance(v, Expression) or hasattr(v, "_variables") or hasattr(v, "_expressions"):
+            parameters_of(v, seen, out)
+    return out
+
+
+PARAM_VALUES = [None, 2.75, 0.6]      # value each Parameter is set to before evaluating at point k (None: as built)
+
 EXTRA = [
+    ("BinaryOp:par*quad", {"cls": "py", "setup": "from optyx.core.parameters import Parameter\nx=VectorVariable('v',3)\np=Parameter('p',1.5)",
+                           "expr": "x[0]**2 + x[1]**2 + p*x[0]*x[1]"}),
+    ("BinaryOp:par*row", {"cls": "py", "setup": "from optyx.core.parameters import Parameter\nx=VectorVariable('v',3)\np=Parameter('p',1.5)",
+                          "expr": "p * x.sum() + 1"}),
+    ("BinaryOp:row*par", {"cls": "py", "setup": "from optyx.core.parameters import Parameter\nx=VectorVariable('v',3)\np=Parameter('p',1.5)",
+                          "expr": "x.dot(x) * p"}),
     ("MatrixSum|MatrixVariable", {"cls": "py", "setup": "from optyx.core.matrices import MatrixSum\nX=MatrixVariable('X',2,2)", "expr": "MatrixSum(X)"}),
     ("MatrixSum|MatrixExpression", {"cls": "py", "setup": "from optyx.core.matrices import MatrixSum\nX=MatrixVariable('X',2,2)", "expr": "MatrixSum(2*X)"}),
     ("QuadraticForm|sym", {"cls": "QuadraticForm", "vector": {"cls": "VectorVariable", "name": "v", "vars": [{"cls": "Variable", "name": f"v[{i}]"} for i in range(3)]},
@@ -113,8 +146,13 @@ def main():
                             fails.append((label, fname, vname, f"raises {type(ex).__name__} although gradient() succeeds"))
                         except Exception:       # noqa: BLE001
                             pass
+                pars = parameters_of(e)
                 for label, f in fns:
-                    for env in POINTS:
+                    for pi_, env in enumerate(POINTS):
+                        # C12: a Parameter updated after compilation is honoured by the compiled callable
+                        if PARAM_VALUES[pi_ % len(PARAM_VALUES)] is not None:
+                            for p_ in pars:
+                                p_.set(PARAM_VALUES[pi_ % len(PARAM_VALUES)])
                         x = np.array([env.get(n, 0.25) for n in names], dtype=float)
                         try:
                             with np.errstate(all="ignore"):
@@ -155,7 +193,11 @@ def main():
                         except Exception:       # noqa: BLE001
                             pass
                         continue
-                    for env in POINTS[:1] if tier == "quick" else POINTS:
+                    pars = parameters_of(e)
+                    for pi_, env in enumerate(POINTS):
+                        if PARAM_VALUES[pi_ % len(PARAM_VALUES)] is not None:
+                            for p_ in pars:
+                                p_.set(PARAM_VALUES[pi_ % len(PARAM_VALUES)])
                         full = {k: env.get(k, 0.25) for k in set(names) | set(env)}
                         x = np.array([full[n] for n in names], dtype=float)
                         try:
